@@ -566,6 +566,78 @@ def dict_disc(s):
   f = spec_features(s)
   return '+'.join(sorted(x for x in f if x in ('multi', 'named', 'conditional') or x.startswith('lits'))) or 'plain'
 
+def run_all_lookups(d, pg):
+  """Every lookup API of a DNA (also primes its lazily built tables).  Returns {query: raw result}; an exception is a result."""
+  out = {}
+  def q(key, fn):
+    try:
+      out[key] = fn()
+    except Exception as e:   # pylint: disable=broad-except
+      out[key] = ('raises', type(e).__name__)
+  seen_parents = set()
+  for dp in pg.decision_points:
+    path = dp.id.path
+    q(('decision-point', path), lambda: d[dp])
+    q(('id-keypath', path), lambda: d[dp.id])
+    q(('id-string', path), lambda: d[path])
+    q(('get', path), lambda: d.get(path))
+    if dp.name: q(('name', dp.name), lambda: d[dp.name]); q(('get-name', dp.name), lambda: d.get(dp.name))
+    if dp.is_categorical and dp.is_subchoice and id(dp.parent_spec) not in seen_parents:
+      seen_parents.add(id(dp.parent_spec)); par = dp.parent_spec
+      q(('multi-choice', par.id.path), lambda: d[par]); q(('multi-choice-id', par.id.path), lambda: d[par.id.path])
+  q(('named_decisions',), lambda: dict(d.named_decisions))
+  q(('decision_ids',), lambda: [str(x) for x in d.decision_ids])
+  q(('get-missing',), lambda: d.get('no such decision', 'dflt'))
+  nodes = []
+  def walk(n):
+    nodes.append(n)
+    for c in n.children: walk(c)
+  walk(d)
+  q(('is_subchoice',), lambda: [n.is_subchoice for n in nodes])
+  q(('is_multi_choice_container',), lambda: [n.is_multi_choice_container for n in nodes])
+  q(('literal_value',), lambda: repr(d.literal_value))
+  return out, nodes
+
+def canon_lookup(v):
+  from pyglove.core.geno import DNA
+  if isinstance(v, DNA): return ('dna', G.freeze(G.dna_to_tree(v)))
+  if isinstance(v, list): return ('list', tuple(canon_lookup(x) for x in v))
+  if isinstance(v, dict): return ('dict', tuple((k, canon_lookup(x)) for k, x in v.items()))
+  if isinstance(v, tuple): return v
+  return ('val', repr(v))
+
+def foreign_nodes(v, own_ids):
+  """DNA nodes in a lookup result that are not nodes of the DNA that was asked."""
+  from pyglove.core.geno import DNA
+  if isinstance(v, DNA): return [] if id(v) in own_ids else [v]
+  if isinstance(v, list): return [x for e in v for x in foreign_nodes(e, own_ids)]
+  if isinstance(v, dict): return [x for e in v.values() for x in foreign_nodes(e, own_ids)]
+  return []
+
+def check_lookups(ctx, s, pg, sdesc, d, how, history):
+  """Every lookup on a DNA handed out by the library equals the same lookup on the DNA rebuilt from its numbers, and the
+  nodes it returns are nodes of that DNA's own tree."""
+  from pyglove.core.geno import DNA
+  case = dict(spec=s, clause='alignment', how=how, history=history)
+  got, nodes = run_all_lookups(d, pg)
+  own = {id(n) for n in nodes}
+  try:
+    rebuilt = DNA.from_numbers(d.to_numbers(), pg)
+  except Exception as e:   # pylint: disable=broad-except
+    ctx.hit('C12/views-differ-from-rebuilt/%s/raises' % how, 'after %s, rebuilding %s from its numbers raises %s' % (how, d, e), case); return False
+  exp, _ = run_all_lookups(rebuilt, pg)
+  for key in got:
+    if canon_lookup(got[key]) != canon_lookup(exp[key]):
+      ctx.hit('C12/lookup-after-producer/%s/%s' % (how, key[0]),
+              'after %s (history %s) the lookup %r on %s gives %r but on the DNA rebuilt from its numbers %r (spec %s)' % (how, history, key, d, got[key], exp[key], sdesc), case)
+      return False
+    alien = foreign_nodes(got[key], own)
+    if alien:
+      ctx.hit('C12/lookup-returns-foreign-node/%s/%s' % (how, key[0]),
+              'after %s (history %s) the lookup %r on %s returns the node %s which is not a node of that DNA (spec %s)' % (how, history, key, d, alien[0], sdesc), case)
+      return False
+  return True
+
 def check_aligned(ctx, s, pg, ix, sdesc, d, how, history):
   """A DNA handed out by the library: every node bound to the decision point of its position, and views equal
   to those of the DNA rebuilt from its numbers."""
@@ -601,7 +673,13 @@ def oracle_chain(ctx, s, pg, ix, sdesc, rng, fin):
   def take(d, how):
     hist.append(how)
     ctx.hist('chain_steps', how)
-    if check_aligned(ctx, s, pg, ix, sdesc, d, how, list(hist)): pool.append(d)
+    if check_aligned(ctx, s, pg, ix, sdesc, d, how, list(hist)) and check_lookups(ctx, s, pg, sdesc, d, how, list(hist)): pool.append(d)
+  def pick():
+    """An input of the next producing step; querying it first is part of the case (it builds the lazily cached lookup tables)."""
+    d = rng.choice(pool)
+    if rng.random() < 0.6:
+      run_all_lookups(d, pg); hist.append('query'); ctx.hist('chain_steps', 'query-before-step')
+    return d
   if fin:
     it = pg.iter_dna()
     for _ in range(rng.randint(1, 3)):
@@ -616,23 +694,23 @@ def oracle_chain(ctx, s, pg, ix, sdesc, rng, fin):
   else:
     for _ in range(2): take(DNA.from_numbers(G.build_dna(G.random_sdna(rng, s)).to_numbers(), pg), 'from_numbers')
   if not pool: return
-  take(DNA(pool[0].to_json(type_info=False), spec=pg), 'parse+use_spec')
-  take(DNA.from_dict(pool[0].to_dict(), pg), 'from_dict')
-  take(rng.choice(pool).clone(deep=True), 'clone')
+  take(DNA(pick().to_json(type_info=False), spec=pg), 'parse+use_spec')
+  take(DNA.from_dict(pick().to_dict(), pg), 'from_dict')
+  take(pick().clone(deep=True), 'clone')
   for step in range(rng.randint(2, 4)):
     r = rng.random()
     try:
       if r < 0.3 and not has_custom:
-        take(mutators.Uniform(seed=rng.getrandbits(20)).mutate(rng.choice(pool)), 'mutators.Uniform')
+        take(mutators.Uniform(seed=rng.getrandbits(20)).mutate(pick()), 'mutators.Uniform')
       elif r < 0.55:
-        take(mutators.Swap(seed=rng.getrandbits(20)).mutate(rng.choice(pool)), 'mutators.Swap')
+        take(mutators.Swap(seed=rng.getrandbits(20)).mutate(pick()), 'mutators.Swap')
       elif r < 0.7:
-        take(rng.choice(pool).clone(deep=rng.random() < 0.5), 'clone')
+        take(pick().clone(deep=rng.random() < 0.5), 'clone')
       else:
         cls, name = rng.choice([(lambda sd_: recombinators.Uniform(seed=sd_), 'recombinators.Uniform'),
                                 (lambda sd_: recombinators.Sample(seed=sd_), 'recombinators.Sample'),
                                 (lambda sd_: recombinators.KPoint(1, seed=sd_), 'recombinators.KPoint')])
-        a, b = rng.choice(pool), rng.choice(pool)
+        a, b = pick(), pick()
         kids = cls(rng.getrandbits(20)).recombine([a, b], global_state=geno.AttributeDict(), step=0) if False else _recombine(cls(rng.getrandbits(20)), [a, b])
         for k in kids: take(k, name)
     except NotImplementedError:
